@@ -167,6 +167,11 @@ theorem flag_pow_sets_units : tables.flags.powSetsUnits = true := by decide
     (finding C18-F19b when false) -/
 theorem flag_recip_sets_units : tables.flags.recipSetsUnits = true := by decide
 
+/-- the immittance mixins' `__rtruediv__` build the reciprocal in the operand's own domain
+    (`self._class_by_quantity(...)`; finding C19-F24 when false: `1/Y(j omega)` became an angular
+    Fourier impedance) -/
+theorem flag_recip_keeps_domain : tables.flags.recipKeepsDomain = true := by decide
+
 /-- the omega-domain special cases of `__compat_add__` come after a test on the quantities
     (finding C18-F20, first half, when false) -/
 theorem flag_omega_needs_quantity : tables.flags.omegaNeedsQuantity = true := by decide
@@ -364,6 +369,44 @@ theorem recip_consistent (nu : U) (x : Opd) (hq : x.q = .impedance ∨ x.q = .ad
   refine ⟨_, _, _, rfl, dimU_sub _ _, ?_⟩
   rw [dimU_sub, va_sub, hnu, hx]
   rcases hq with hq | hq <;> simp [hq, subVA, dimQ]
+
+/-- ... and it lives in the operand's OWN domain, for every operand: `1/Y(j omega)` is an impedance of
+    the angular frequency-response domain, `1/Z` of a phasor ratio a phasor-ratio admittance (code
+    with `self._class_by_quantity(...)`, `flag_recip_keeps_domain`) -/
+theorem recip_keeps_domain (nu : U) (x : Opd) (hq : x.q = .impedance ∨ x.q = .admittance) :
+    ∃ q u, recipImmittance tables nu x = .ok (classByQuantity tables x.dom q x.dom) q u ∧
+      (q = .impedance ∨ q = .admittance) ∧ q ≠ x.q := by
+  unfold recipImmittance
+  simp only [flag_recip_keeps_domain, if_true]
+  rcases hq with hq | hq
+  · exact ⟨.admittance, nu - x.units, by simp [hq, flag_recip_sets_units], Or.inr rfl, by simp [hq]⟩
+  · exact ⟨.impedance, nu - x.units, by simp [hq, flag_recip_sets_units], Or.inl rfl, by simp [hq]⟩
+
+/-- in every non-constant domain that class is the immittance class of the same domain -/
+theorem immittance_class_same_domain :
+    ∀ d ∈ Domain.all, isConst tables d = false → d ≠ .superposition → d ≠ .undefined →
+      classByQuantity tables d .impedance d = d ∧ classByQuantity tables d .admittance d = d := by decide
+
+/-- the generic path agrees: `x / a` with a constant-domain numerator (`Expr.__rtruediv__` is
+    `expr(x) / self`) gives a result in the class of the DIVISOR's domain, for every quantity -/
+theorem generic_division_keeps_divisor_domain (a x : Opd) (d : Domain) (q : Quantity) (u : U)
+    (hc : isConst T a.dom = true) (hx : coerceImmittance T x T.flags.divRestoresUnits = x)
+    (h : divCore T a x = .ok d q u) : d = classByQuantity T x.dom q x.dom := by
+  simp only [divCore, hx] at h
+  split at h
+  · simp at h
+  · split at h
+    · simp at h
+    · simp only [Outcome.ok.injEq] at h
+      rw [← h.1, ← h.2.1]
+
+theorem witness_recip_phasor_ratio :
+    divM tables ⟨.constant, .undefined, U.one, false, true, true⟩
+      ⟨.phasorRatio, .impedance, ⟨0, 0, 1, 0, 0, 0, 0, 0⟩, false, false, false⟩ =
+      .ok .phasorRatio .admittance ⟨0, 0, -1, 0, 0, 0, 0, 0⟩ ∧
+    divM tables ⟨.constant, .undefined, U.one, false, true, true⟩
+      ⟨.angularFrequencyResponse, .admittance, ⟨0, 0, 0, 1, 0, 0, 0, 0⟩, false, false, false⟩ =
+      .ok .angularFrequencyResponse .impedance ⟨0, 0, 0, -1, 0, 0, 0, 0⟩ := by decide
 
 theorem witness_div_voltage_current : divM tables ⟨.laplace, .voltage, ⟨1, 0, 0, 0, 0, -1, 0, 0⟩, false, false, false⟩
     ⟨.laplace, .current, ⟨0, 1, 0, 0, 0, -1, 0, 0⟩, false, false, false⟩ =
